@@ -125,9 +125,14 @@ def main(tier):
             sys.stderr.write(str(ex) + "\n")
             print("ERROR: /repo does not build; nothing can be checked")
             return 2
+        import nfacheck
         cases = build_cases(rng, tier)
         results = engine.run_cases(flex, scratch, cases)
         engine.judge(ck, flex, scratch, cases, results, stats)
+        # the NFA printed by flex -T judged by the proved lock-step checker (no scanner compiled)
+        ncases = nfacheck.nfa_cases(rng.fork("nfa"), tier)
+        nresults = engine.parallel_map(nfacheck.nfa_worker, ncases)
+        nfacheck.judge_nfa(ck, ncases, nresults, stats)
     # coverage numbers measured on this run
     ls_ok = sum(1 for r in results for l in r['lockstep'] if " OK " in l)
     ls_all = sum(len(r['lockstep']) for r in results)
@@ -157,10 +162,15 @@ def main(tier):
                          "gcc, m4"],
         "theorems": details,
         "evaluations": len(cases), "distinct_nontrivial": len(distinct),
+        "nfa_rule": "rule sets without anchors, trailing context and start conditions (flags, definitions, class operations and counted "
+                    "repetitions included): the NFA printed by flex -T is related to the specification automaton by the proved checker; "
+                    "class contents are taken from the specification side, so this judges nfa.c and the machine-building reductions of parse.y",
         "rule": "random rule sets (grammar weighted to syntax corners) x table option; distinct = distinct (program, options); "
                 "non-trivial = DFA with >= 3 states and >= 2 different rules matched in the observed streams",
         "lockstep_queries": ls_all, "lockstep_ok": ls_ok, "lockstep_pairs_checked": pairs,
         "lockstep_inconclusive": stats.get('inconclusive', 0),
+        "nfa_dumps_checked": stats.get('nfa_checked', 0), "nfa_states_total": stats.get('nfa_states_total', 0),
+        "nfa_lockstep_pairs_checked": stats.get('nfa_pairs_checked', 0),
         "token_streams_validated": streams,
         "dfa_size_histogram": sizes, "option_histogram": optsh,
         "problem_kinds": stats.get('problem_kinds', {}),
